@@ -243,3 +243,10 @@ package hub
 //@   invariant @HUBINV(h) && (forall k: string :: k in entries ==> entries[k] != nil)
 //@ loop (h *Hub).ReportMdnsEntries #1
 //@   invariant @HUBINV(h) && (forall k: string :: k in entries ==> entries[k] != nil)
+
+// ======================= lock discipline (C20) =======================
+//@ guarded Hub.connections by Hub.muxCon
+//@ guarded Hub.remoteServices, Hub.autoaccept by Hub.muxReg
+//@ guarded Hub.connectionAttemptCounter, Hub.connectionAttemptRunning by Hub.muxConAttempt
+//@ guarded Hub.knownMdnsEntries by Hub.muxMdns
+//@ guarded Hub.hasStarted, Hub.isShutdown by Hub.muxStarted
